@@ -520,3 +520,40 @@ func PlantNilMember(t *rapid.T, cfg *Config) bool {
 	}
 	return true
 }
+
+// PlantVoidChain adds a singleton service, a *singleton* function without results that needs it and is
+// registered under a name (a migration step), and a singleton consumer that depends on the service and -
+// through a name-tagged struct{} field - on the function having run. The order of construction is
+// pinned by declared dependencies only.
+func PlantVoidChain(t *rapid.T, cfg *Config) bool {
+	nid := 0
+	for _, r := range cfg.Regs {
+		if r.ID >= nid {
+			nid = r.ID + 1
+		}
+		for _, p := range r.AllProvides() {
+			if p.Ident.Key == "vc-db" || p.Ident.Key == "vc-repo" || p.Ident.Key == "vc-migrate" {
+				return false
+			}
+		}
+		if r.Name == "vc-migrate" {
+			return false
+		}
+	}
+	db := Reg{ID: nid, Life: Singleton, Form: FormPlain, Outs: []OutSpec{{T: 0, Impl: 0}}, Name: "vc-db"}
+	mig := Reg{ID: nid + 1, Life: Singleton, Form: FormVoid, Name: "vc-migrate", HasErr: rapid.Bool().Draw(t, "voidChainErr"),
+		Deps: []DepSpec{{T: 0, Key: "vc-db"}}, UseIn: true}
+	repo := Reg{ID: nid + 2, Life: Singleton, Form: FormPlain, Outs: []OutSpec{{T: NumD + 1, Impl: NumD + 1}}, Name: "vc-repo", UseIn: true,
+		Deps: []DepSpec{{T: 0, Key: "vc-db"}, {T: TVoid, Key: "vc-migrate", Optional: rapid.Bool().Draw(t, "voidChainOptional")}}}
+	regs := []Reg{db, mig, repo}
+	// (registered in a generated order: the set decides, not the order of the calls)
+	perm := rapid.Permutation([]int{0, 1, 2}).Draw(t, "voidChainOrder")
+	for _, i := range perm {
+		cfg.Regs = append(cfg.Regs, regs[i])
+	}
+	if _, err := NewModel(cfg); err != nil {
+		cfg.Regs = cfg.Regs[:len(cfg.Regs)-3]
+		return false
+	}
+	return true
+}
